@@ -877,8 +877,12 @@ def _spsolve(A, b, *a, **k):
         if not has_sym(Ad):
             # concrete matrix, symbolic rhs: x = A^{-1} b with the real inverse
             Ainv = _np.linalg.inv(_np.asarray(conc(Ad), dtype=float))
-            return Ainv.astype(object) @ _obj(b)
-        return sym_solve(Ad, b)
+            res = Ainv.astype(object) @ _obj(b)
+        else:
+            res = sym_solve(Ad, b)
+        if res.ndim == 2 and res.shape[1] == 1:
+            res = res[:, 0]        # scipy's spsolve returns a 1-D array for a single right-hand-side column
+        return res
     return _sp.sparse.linalg.spsolve(A, conc(b), *a, **k)
 
 
@@ -1046,6 +1050,17 @@ class _StatsDist:
     def __getattr__(self, n):
         fns = object.__getattribute__(self, '_fns')
         real = object.__getattribute__(self, '_real')
+        if n == 'rvs' and active():
+            name = getattr(real, 'name', '?')
+
+            def rvs(*args, size=None, random_state=None, **kw):
+                c = ctx()
+                shp = () if size is None else (tuple(size) if not _np.isscalar(size) else (int(size),))
+                v = c.draw('rvs', shp, dist=name, args=args, kw=kw)
+                c.draws[-1]['kind'] = 'rvs:' + name
+                c.draws[-1]['source'] = getattr(random_state, 'tag', 'global') if random_state is not None else 'global'
+                return v
+            return rvs
         if n in fns:
             symfn = fns[n]
             realfn = getattr(real, n)
@@ -1459,8 +1474,9 @@ class Installed:
         if concrete:
             # real numpy/scipy everywhere; only the random stream is scripted
             rnd = self.f['random']
+            stats = self.f['stats']     # only its scripted rvs matters here: logpdf/cdf pass through on floats
             npf = Facade(_np, {'random': rnd}, 'numpy(random scripted)')
-            self.f = {'np': npf, 'random': rnd, 'modmap': {id(_np): npf, id(_np.random): rnd},
+            self.f = {'np': npf, 'random': rnd, 'stats': stats, 'modmap': {id(_np): npf, id(_np.random): rnd, id(_sp.stats): stats},
                       'fnmap': {}, 'permod': {}}
         self.saved = []
         self.prefix = prefix
